@@ -501,6 +501,18 @@ def main():
         die("CachedRwLock::write not found")
     shared_epoch = re.search(r"let guard = self\.shared\.value\.lock\(\); let epoch = self\.shared\.epoch\.load\(Ordering::\w+\) \+ 1; self\.shared\.epoch\.store\(epoch, Ordering::\w+\);", wbody) is not None
     out.append("/-- `CachedRwLock::write` takes the lock, then bumps the *shared* epoch -/\ndef lockWriteBumpsSharedEpoch : Bool := " + b(shared_epoch))
+    # ---- util/bit.rs, util/rng.rs, pool_manager.rs: the bit-level core of work stealing (M-STEAL)
+    bitsrc = rd("util/bit.rs"); rngsrc = rd("util/rng.rs"); pmsrc = rd("executor/mt_executor/pool_manager.rs")
+    fbit = fn_body(bitsrc, r"fn\s+find_bit\b[^{]*\{")
+    smask = fn_body(bitsrc, r"const\s+fn\s+sum_masks\b[^{]*\{")
+    gbnd = fn_body(rngsrc, r"fn\s+gen_bounded\b[^{]*\{")
+    srank = re.search(r"bit::find_bit\s*\(\s*candidates\s*,\s*\|count\|\s*\{(.*?)\}\s*\)", pmsrc, re.S)
+    if None in (fbit, smask, gbnd, srank):
+        die("find_bit / sum_masks / gen_bounded / the rank closure of ShuffledStealers::new not found")
+    out.append("/-- body of `find_bit` (util/bit.rs), comments stripped, white space normalised -/\ndef findBitSrc : String := " + json.dumps(norm(fbit).strip()))
+    out.append("/-- body of `sum_masks` (util/bit.rs) -/\ndef sumMasksSrc : String := " + json.dumps(norm(smask).strip()))
+    out.append("/-- body of `Rng::gen_bounded` (util/rng.rs) -/\ndef genBoundedSrc : String := " + json.dumps(norm(gbnd).strip()))
+    out.append("/-- the rank closure handed to `find_bit` by `ShuffledStealers::new` (pool_manager.rs) -/\ndef stealRankSrc : String := " + json.dumps(norm(srank.group(1)).strip()))
     out.append("")
     # names inside the expressions refer to the other constants
     text = "\n".join(out)
